@@ -1287,8 +1287,9 @@ func (r *Raft) sendRequestVote(id string, address string, votes *int, prevote bo
 		return
 	}
 
-	// Increment vote count if vote is granted.
-	if response.VoteGranted {
+	// Increment vote count if vote is granted. The configuration may have changed while
+	// the lock was released, so only count the vote if the node is still a voter.
+	if response.VoteGranted && r.isVoter(id) {
 		*votes++
 	}
 
